@@ -42,7 +42,7 @@
    with different ranges).  The lift to run_query (all components of a run): see the end of this
    file. *)
 From Crusta Require Import Spec.AF Sat.Cnf Sat.Prog Model.Encoders Model.Graph Model.Solvers.
-From Crusta Require Import Proofs.EncSpec Proofs.SolverBasics Proofs.MaxExtPref Proofs.NoTwice.
+From Crusta Require Import Proofs.EncSpec Proofs.SolverBasics Proofs.MaxExtPref Proofs.Decomp Proofs.TopBase Proofs.TopMax Proofs.SolverTop Proofs.NoTwice.
 From Crusta Require Proofs.SolverWholeEx.
 Import ListNotations.
 
@@ -149,9 +149,69 @@ Proof.
   eexists. split; [vm_compute; reflexivity|]. split; vm_compute; reflexivity.
 Qed.
 
+(* ---- the lift to run_query: every PR / ID entry point (SE-PR, DS-PR with and without certificate,
+   SE-ID, DC-ID, DS-ID with and without certificate) --------------------------------------------
+   A run works on the components [query_comps s q cert g al] one after the other, each in SAT sessions
+   of its own.  [segmented P cs new]: the events [new] of the run (most recent first) are the
+   concatenation of consecutive segments, one per component of [cs] in the order they were worked
+   on, and the segment of the component c satisfies [P c]:
+       segmented P [] []        segmented P (c :: cs) (rest ++ seg)  when  P c seg, segmented P cs rest.
+   [cs] lists the components the run got to (all of them when it completes; fewer when it aborts,
+   runs out of fuel, or - DS without counter-example - needs only the first).
+     comp_pr_ok e c seg   the facts of C18_log_preferred_no_candidate_twice for the component c
+                          (its framework has the arguments 0 .. |c_ids c| - 1);
+     comp_id_ok e c seg   the two-phase facts of C18_log_ideal_no_candidate_twice_per_phase;
+     comp_log_ok s e      comp_id_ok for the ideal solver, comp_pr_ok for the preferred one.
+   Premises as in C18_call_bound. *)
+Theorem C18_log_component_facts_spelled : forall e c seg,
+  (comp_pr_ok e c seg <->
+     sat_answers_ok e (c_af c) (length (c_ids c)) seg /\
+     n_unsat seg <= length (all_exts PR (c_af c)) + 1) /\
+  (comp_id_ok e c seg <->
+     exists new1 new2, seg = new2 ++ new1 /\ comp_pr_ok e c new1 /\
+                       sat_answers_ok e (c_af c) (length (c_ids c)) new2).
+Proof. intros e c seg. split; reflexivity. Qed.
+
+Theorem C18_log_run_no_candidate_twice : forall oracle thr g F,
+  valid_oracle oracle -> 1 <= thr -> view_good g F ->
+  forall s q cert e al fuel st0, s = PR \/ s = ID ->
+  supported s q -> enc_ok s e -> al_ok s q F al ->
+  match run_query oracle thr fuel s q cert e g al st0 with
+  | Done _ t | Abort t | Panic t | OutOfFuel t =>
+      exists cs new, rlog t = new ++ rlog st0 /\
+        incl cs (query_comps s q cert g al) /\ segmented (comp_log_ok s e) cs new
+  end.
+Proof. exact NoTwice.run_query_segs. Qed.
+
+(* hence the number of Sat answers of a whole preferred run is at most the number of candidate
+   sets of the components it got to ([n_sat] counts the Sat answers of a log, [base_count e cs] sums
+   |base| over cs); twice that for the ideal solver (two phases) *)
+Theorem C18_log_run_preferred_sat_answers_le_candidates : forall e cs new,
+  segmented (comp_pr_ok e) cs new -> n_sat new <= base_count e cs.
+Proof. exact NoTwice.segmented_pr_count. Qed.
+Theorem C18_log_run_ideal_sat_answers_le_candidates : forall e cs new,
+  segmented (comp_id_ok e) cs new -> n_sat new <= 2 * base_count e cs.
+Proof. exact NoTwice.segmented_id_count. Qed.
+
+(* a completed run on the two-component framework 0 <-> 1 -> 2, 3 -> 3 -> 4 (SolverTop.ex_F): SE-PR
+   receives 1 Sat and 2 Unsat answers; the components have 3 + 1 complete sets *)
+Example C18_log_run_example :
+  let r := run_query SolverWholeEx.bf_oracle 1 100 PR QSE false AuxCo (view_of_af ex_F) [] (init_st CadicalLike) in
+  (exists t, r = Done (OExt (Some [0; 2])) t /\ n_sat (rlog t) = 1 /\ n_unsat (rlog t) = 2) /\
+  map c_ids (query_comps PR QSE false (view_of_af ex_F) []) = [[0; 1; 2]; [3; 4]] /\
+  base_count AuxCo (query_comps PR QSE false (view_of_af ex_F) []) = 4.
+Proof.
+  cbv zeta. split; [eexists; split; [vm_compute; reflexivity|split; vm_compute; reflexivity]|].
+  split; vm_compute; reflexivity.
+Qed.
+
 Print Assumptions C18_log_sat_answers_ok_spelled.
 Print Assumptions C18_log_preferred_no_candidate_twice.
 Print Assumptions C18_log_preferred_ds_no_candidate_twice.
 Print Assumptions C18_log_ideal_no_candidate_twice_per_phase.
 Print Assumptions C18_log_ideal_acceptance_no_candidate_twice_per_phase.
 Print Assumptions C18_log_preferred_sat_answers_le_candidates.
+Print Assumptions C18_log_component_facts_spelled.
+Print Assumptions C18_log_run_no_candidate_twice.
+Print Assumptions C18_log_run_preferred_sat_answers_le_candidates.
+Print Assumptions C18_log_run_ideal_sat_answers_le_candidates.
